@@ -43,3 +43,8 @@ import Mp.CueAstProofs
 #print axioms Mp.blocked_head_errs
 #print axioms Mp.blocked_head_never_accepted
 #print axioms Mp.accepted_head_not_blocked
+#print axioms Mp.acc_path
+#print axioms Mp.acc_parts
+#print axioms Mp.acc_params
+#print axioms Mp.acc_logic
+#print axioms Mp.accepted_reads_no_blocked_field
